@@ -1,9 +1,42 @@
 PROPERTY = "C13"
 LEVEL = "proof"
-FUNCTIONS = ["sqfs_writer_cleanup"]
-TRUSTED = []
-ASSUMPTIONS = []
-EXPLANATION = ""
+FUNCTIONS = [
+    "main (gensquashfs mkfs.c)", "pack_files (empty list)", "main (tar2sqfs)",
+    "sqfs_writer_init", "sqfs_writer_finish", "padd_sqfs", "sqfs_writer_cleanup",
+    "sqfs_dir_writer_write_export_table", "add_export_table_entry",
+    "sqfs_write_table", "sqfs_id_table_write", "sqfs_frag_table_write",
+    "sqfs_meta_writer_flush", "write_block", "sqfs_xattr_writer_flush",
+    "set_block_size", "process_completed_block", "process_completed_fragment",
+    "release_old_block", "get_new_block", "add_sentinel_block", "enqueue_block",
+    "sqfs_block_processor_end_file", "sqfs_block_processor_sync",
+    "sqfs_block_processor_finish",
+    "array_init", "array_init_copy", "array_append", "array_set_capacity",
+    "alloc_flex", "alloc_array",
+]
+TRUSTED = [
+    "allocator contract (harness/C13/c13_alloc.h): malloc/calloc/realloc return NULL (fault) or a fresh object; realloc failure leaves the old block valid",
+    "sqfs_file_t contract (harness/C14/c14_env.h): write_at / truncate / read_at fail or succeed at every call (proved for stdio_write_at in C14)",
+    "stage contracts of the mains (harness/C13/main_env.h): each stage fails (and prints its own diagnostic) or succeeds; sqfs_writer_cleanup is its contract proved in cleanup.c",
+    "component constructors / destroy hooks as in harness/C14/writer_env.h (references taken as the real constructors take them)",
+    "thread pool contract (bp_env.h): submit fails or accepts; dequeue returns the next block or NULL with a status that may be 0",
+    "block writer write_data_block, fragment table set/append/lookup, fragment hash table lookup/insert (incl. the comparison callback's error channel fblk_lookup_error), sqfs_inode_* helpers for file inodes, dequeue_block contract 'fails or lowers the backlog' (frontend / finish harnesses)",
+    "static helpers of xattr_writer_flush.c replaced by contracts (dfcc)",
+    "unlink() is the removal of the output; stdio diagnostics have no other effect",
+]
+ASSUMPTIONS = [
+    "per-function fail-stop: fault => return != success for each function against its callees' contracts; the composition into 'the tool exits non-zero' is the two main harnesses plus these links, not a whole-program run",
+    "not covered: option parsers, sqfs_serialize_fstree/serialize_tree_node/write_dir_entries, dequeue_block as a whole (its callees process_completed_block/_fragment are covered; chaining them under one harness did not finish: 14 min symex), sqfs_block_processor_append, sqfs_meta_writer_append, pack_file / istream / ostream chain (C12), sqfs2tar and rdsquashfs, dir_writer other than the export table, signals, diagnostics text",
+    "bounded parts: block index <= 11, inode payload capacity 0/16, block payload <= 16 bytes, in-flight fragment copies <= 2, backlog <= 4 in sync/finish, table entries <= 3, array element size in {4,8,16}, alloc item size in {1,8,16}",
+    "sqfs_block_processor_append(size = 0) with no current block dereferences NULL (C01.bp.append_safe) - not re-reported here",
+    "array_init_copy of an empty array calls memcpy(NULL, NULL, 0) (formally undefined; C19's copy hooks) - excluded by requires",
+    "callers zero-fill sqfs_writer_t when they set no_xattr (tar2sqfs does; gensquashfs never sets it)",
+]
+EXPLANATION = ("ghost flag g_fault is set by every environment contract that reports failure or NULL; each "
+               "function on the writer call chain is checked for 'g_fault => return != success' (and the "
+               "converse where meaningful) with every callee free to fail at every call, so all single and "
+               "multiple fault positions are covered per function; cleanup unlinks the output for every "
+               "non-success status after closing it; both mains return EXIT_FAILURE on any stage failure and "
+               "call cleanup with exactly that status.")
 
 _FP_FILE = {"write_at": "c14_write_at", "get_size": "c14_get_size",
             "truncate": "c14_truncate", "read_at": "c14_read_at"}
@@ -22,8 +55,8 @@ HARNESSES = [
     dict(name="main_tar2sqfs", file="main_tar2sqfs.c", label="proved",
          fp={"destroy": ["in_destroy", "it_destroy"]},
          timeout=300, cases=[dict(id="all", tier="quick")]),
-    dict(name="alloc", file="alloc.c", label="proved", timeout=300, native=False,
-         cases=[dict(id="all", tier="quick")]),
+    dict(name="alloc", file="alloc.c", label="bounded(item size in {1,8,16})", timeout=120,
+         cases=[dict(id="item%d" % n, defines={"ITEM": n}, tier="quick") for n in (1, 8, 16)]),
     dict(name="array_ops", file="array_ops.c", label="proved", unwind=66, timeout=600,
          cases=[dict(id="init", defines={"OP": 0}, tier="quick"),
                 dict(id="init_copy", defines={"OP": 1}, tier="quick"),
@@ -41,6 +74,11 @@ HARNESSES = [
     dict(name="tables", file="tables.c", label="bounded(entries <= 3)",
          fp=dict(_FP_FILE, destroy="tbl_destroy", copy="tbl_copy"), unwind=50,
          timeout=600, cases=[dict(id="n3", tier="quick")]),
+    dict(name="xattr_flush", file="xattr_flush.c", label="proved",
+         mode="dfcc", replace=["write_kv_pairs", "write_id_table", "alloc_location_table"],
+         loops=["sqfs_xattr_writer_flush"], loop_tables=["C14"], native=False,
+         fp=dict(_FP_FILE, destroy="mw_destroy"),
+         timeout=600, cases=[dict(id="all", tier="quick")]),
     dict(name="meta_flush", file="meta_flush.c", label="proved",
          fp=dict(_FP_FILE, do_block="c14_do_block", destroy="c14_obj_destroy"),
          timeout=600, cases=[dict(id="all", tier="quick")]),
